@@ -140,5 +140,28 @@ _ADD = {
  "C16": "A session whose thread does not come back within a wall-clock limit is recorded as a `hang` event, which Trace_Debug classifies as no-progress (a spin where no hook fires is still a verdict, not a tool error).",
  "C19": "Sequences also contain free-form sources: any subset of the shared names defined at random lines and referenced backward, forward, by themselves or without definition.",
 }
+# additions made after the fourth round (observations of the real binary in environments the hooks bypass)
+_ADD4 = {
+ "C02": "Real binary: GETC fed from a pseudo terminal (multi-byte keys), a PUSH/POP program under every spelling of -f, a stepped program reading input from the stdin its commands arrive on.",
+ "C03": "Real binary: GETC from a pseudo terminal; an object file delivered through a named pipe.",
+ "C05": "Real binary: size extremes (60,000 comment lines, 200,000 empty comments, 30,000 labels, a 2 MB comment) must end with exit 0/1; bare all-digit tokens after directives.",
+ "C06": "Real binary: object files through a named pipe; images that jump to the word behind themselves must stop on the implicit HALT.",
+ "C07": "Sources that are not valid UTF-8 (all three commands must refuse); two identical references in a row at the edge of a field; every watch re-check's warnings against a fresh `lace check`.",
+ "C08": "Fault kinds added: symbolic-link destinations (writable / not), names covering every byte alignment of 1- to 4-byte characters, a stdout pipe whose reader leaves after the first message.",
+ "C09": "Real binary: a 154,000-instruction loop under one `continue`, inspection commands with hundreds of surplus arguments, scripts on stdin with the program's input interleaved.",
+ "C10": "Catalogue: HALT written as xF125; real binary: stepping a program whose input arrives on the same stdin as the commands.",
+ "C11": "The load event carries the debugger's real initial breakpoints (compared with origin + Assembler!Breaks; .break before .orig); scenarios: one-instruction loops resumed with every resuming command incl. step out, break add/remove followed by reset.",
+ "C12": "Scenarios: only the condition code changed before reset, a store to xFFFF; real binary: `reset` as last command on stdin with and without a line break.",
+ "C13": "Catalogue programs with labels that differ only in letter case and with images straddling 0x8000 / 0xFE00.",
+ "C14": "Look-alike letters (KELVIN SIGN, LONG S) in every name, TAB / NBSP / U+3000 next to tokens, argument lists of 250-1000 tokens; scripts resuming a program that reads input (xport).",
+ "C15": "Scenario fargap: label operands at and beyond the reach of each field (only forms that must be refused for CALL/JSR).",
+ "C16": "Real binary: finite scripts with command streams that end unusually or cannot be read (directory as stdin, closed stdin, no final line break, NUL, CR only).",
+ "C17": "Rows of the non-minimal breakpoint table against Trace_Cli!CellOf; operands continued on the next line; labels differing only in case.",
+ "C18": "Real binary: a raw 0xD word reached while stdout is a pipe whose reader has left (exit 1, feature named).",
+ "C19": "Case variants of the shared names; one real `lace watch` session (verdict and warnings of every re-check against a fresh `lace check`).",
+ "C20": "The same editor through the REAL terminal path: keys typed into a pseudo terminal one at a time and in bursts, a 1,203-line history file; Trace_Editor replays the keys blind and compares the history file. NBSP in the alphabet.",
+}
+for _k, _v in _ADD4.items():
+    _ADD[_k] = (_ADD.get(_k, "") + " " + _v).strip()
 for _k, _v in _ADD.items():
     CHECKS[_k]["text"] += " " + _v
